@@ -218,6 +218,63 @@ func VerifExportKeyingMaterial13(suiteID uint16, masterSecret []byte, transcript
 }
 
 // ---------------------------------------------------------------------------
+// Stateful forms (the caller keeps the transcript / the inputs and goes on using them):
+// used to check that results do not depend on what happens to caller-owned state afterwards.
+
+// VerifTranscript13 is a TLS 1.3 transcript hash as the handshake state machines hold it.
+type VerifTranscript13 struct {
+	s *cipherSuiteTLS13
+	h hash.Hash
+}
+
+// VerifNewTranscript13 returns an empty transcript hash of the suite.
+func VerifNewTranscript13(suiteID uint16) (*VerifTranscript13, error) {
+	s, err := verifSuite13(suiteID)
+	if err != nil {
+		return nil, err
+	}
+	return &VerifTranscript13{s: s, h: s.hash.New()}, nil
+}
+
+func (t *VerifTranscript13) Write(p []byte) { t.h.Write(p) }
+func (t *VerifTranscript13) Sum() []byte    { return t.h.Sum(nil) }
+
+// DeriveSecret is deriveSecret(secret, label, <this live transcript>).
+func (t *VerifTranscript13) DeriveSecret(secret []byte, label string) []byte {
+	return t.s.deriveSecret(secret, label, t.h)
+}
+
+// FinishedHash is finishedHash(baseKey, <this live transcript>).
+func (t *VerifTranscript13) FinishedHash(baseKey []byte) []byte {
+	return t.s.finishedHash(baseKey, t.h)
+}
+
+// ExportKeyingMaterial is exportKeyingMaterial(masterSecret, <this live transcript>): the
+// closure is handed the very objects the caller keeps.
+func (t *VerifTranscript13) ExportKeyingMaterial(masterSecret []byte) func(string, []byte, int) ([]byte, error) {
+	return t.s.exportKeyingMaterial(masterSecret, t.h)
+}
+
+// VerifFinishedHash is a TLS 1.0-1.2 finishedHash.
+type VerifFinishedHash struct {
+	fh finishedHash
+}
+
+// VerifNewFinishedHash is newFinishedHash(version, suite).
+func VerifNewFinishedHash(version, suiteID uint16) (*VerifFinishedHash, error) {
+	s, err := verifSuite(version, suiteID)
+	if err != nil {
+		return nil, err
+	}
+	return &VerifFinishedHash{fh: newFinishedHash(version, s)}, nil
+}
+
+func (f *VerifFinishedHash) Write(p []byte)             { f.fh.Write(p) }
+func (f *VerifFinishedHash) Sum() []byte                { return f.fh.Sum() }
+func (f *VerifFinishedHash) ClientSum(ms []byte) []byte { return f.fh.clientSum(ms) }
+func (f *VerifFinishedHash) ServerSum(ms []byte) []byte { return f.fh.serverSum(ms) }
+
+// ---------------------------------------------------------------------------
 // Suite tables
 
 // VerifSuite describes one TLS 1.0-1.2 cipher suite as cipherSuiteByID resolves it.
